@@ -45,7 +45,7 @@ CHECKS = {
    "DESIGN.md 4/C16"),
  "C04": ("exploration",
    "runtime monitor: terminal emulator (ECMA-48 subset with scrollback) fed with the recorded output stream (a frame = what one render cycle wrote, however chunked); tape invariants checked after every frame; row groups complete (all extender lines, on the documented side); real pty for the terminal path",
-   "~960 (quick) / ~19000 (thorough) programs whose frames change height every cycle (bars added, removed, popped, extender rows, 0-5 text lines per cycle) on in-memory outputs and on real ptys of 2-24 rows x 60-200 columns with bar counts below, at and above the height; after every frame the emulator's tape must equal persisted lines ++ frame rows, the persisted region is append-only and made exactly of written text and popped rows, no live row is in the scrollback, no autowrap, nothing stale below; nothing before a render delay is released; nothing at all for non-refreshing non-terminal outputs; part resize: the pty window is resized mid-run and every frame whose cycle began after the resize returned must fit the size in force (rows-1, columns).",
+   "~960 (quick) / ~19000 (thorough) programs whose frames change height every cycle (bars added, removed, popped, extender rows, 0-5 text lines per cycle) on in-memory outputs and on real ptys of 2-24 rows x 60-200 columns with bar counts below, at and above the height; after every frame the emulator's tape must equal persisted lines ++ frame rows, the persisted region is append-only and made exactly of written text and popped rows, no live row is in the scrollback, no autowrap, nothing stale below; nothing before a render delay is released; nothing at all for non-refreshing non-terminal outputs; part resize: the pty window is resized mid-run and every frame whose cycle began after the resize returned must fit the size in force (rows-1, columns); of resizes by different clients that overlap in time either may be the one in force.",
    "trusted base: the emulator (golden vectors re-checked by setup_cmd); across a window resize only 'each frame fits' is judged (what a terminal does to its content on a resize is its own business)",
    "DESIGN.md 2.5, 4/C04"),
  "C06": ("exploration",
